@@ -1,5 +1,7 @@
 // C19 harness: drives the real N2kToSeasmart / SeasmartToN2k (src/Seasmart.cpp).
-// ops:  exp <pgn> <src> <ts> <size> <datahex>   -> "<ret> <hex of the whole size-byte buffer (initially a5)>"
+// ops:  exp <pgn> <src> <ts> <size> <datahex> [wrap|refuse]  -> "<ret> <hex of the whole size-byte buffer (initially a5)>"
+//         (7th word only for PGN >= 2^24, outside the property's domain: what the start-up probe saw the library do)
+//       probe pgn-range                         -> "ok"
 //       imp <hex of the string bytes>           -> "0" | "1 <pgn> <ts> <src> <datahex>" | "overread"
 //
 // Import safety is observed twice, both on buffers that end exactly at the terminator:
@@ -164,7 +166,7 @@ static void execImp(const std::vector<std::string> &w) {
 
 static void execExp(const std::vector<std::string> &w) {
   rtPending = false;
-  if (w.size() != 6) { C.out("bad-op"); return; }
+  if (w.size() != 6 && w.size() != 7) { C.out("bad-op"); return; }
   unsigned long pgn = strtoul(w[1].c_str(), nullptr, 10); unsigned src = (unsigned)strtoul(w[2].c_str(), nullptr, 10);
   uint32_t ts = (uint32_t)strtoul(w[3].c_str(), nullptr, 10); size_t size = strtoul(w[4].c_str(), nullptr, 10);
   std::vector<unsigned char> d = unhex(w[5]);
@@ -175,6 +177,15 @@ static void execExp(const std::vector<std::string> &w) {
   memset(buf, 0xA5, size);
   size_t ret = N2kToSeasmart(m, ts, (char *)buf, size);
   size_t n = d.size(), need = 30 + 2 * n;
+  if (pgn >= (1ul << 24)) {
+    // Outside the property's domain ("PGN below 2^24"): the statement says nothing about the result, so there is
+    // no oracle here beyond the sanitizers (exact-size buffer). The 7th word of the op line tells the model which
+    // of the behaviours seen at start-up (probe) the library has: truncate the PGN ("wrap") or refuse ("refuse").
+    C.count("exp_out_of_domain");
+    C.out("%zu %s", ret, hex(buf, size).c_str());
+    free(buf);
+    return;
+  }
   // oracle: exact length / nothing written
   if (size < need) {
     C.count("exp_too_small");
@@ -186,7 +197,7 @@ static void execExp(const std::vector<std::string> &w) {
     size_t sl = strnlen((char *)buf, size);
     if (sl != 29 + 2 * n) C.fail("C19:export:length", "sentence has %zu characters want %zu", sl, 29 + 2 * n);
     for (size_t i = need; i < size; i++) if (buf[i] != 0xA5) { C.fail("C19:export:wrote-beyond", "byte %zu beyond the sentence was written", i); break; }
-    if (sl < size && pgn < (1ul << 24)) {
+    if (sl < size) {
       rtPending = true; rtPgn = pgn; rtTs = ts; rtSrc = src; rtData = d; rtSentence.assign((char *)buf, sl);
       if (rtSentence != refSentence(pgn, ts, src, d)) C.fail("C19:export:text", "sentence is not $PCDIN,<pgn 6 hex>,<ts 8 hex>,<src 2 hex>,<data>*<xor>");
     }
@@ -203,14 +214,26 @@ static void exec(const std::string &line) {
   C.count("op_" + w[0]); C.cases++;
   if (w[0] == "imp") execImp(w);
   else if (w[0] == "exp") execExp(w);
+  else if (w[0] == "probe") C.out("ok");
   else C.out("bad-op");
 }
 
 // ---------------------------------------------------------------------------------------- generation
 static void imp(const std::string &s) { exec("imp " + toHexStr(s)); }
+// What the library does with a PGN that does not fit the 6-digit field is left open by the property; it is learnt
+// once (after the op line "probe pgn-range" has been flushed) and handed to the model in the op lines concerned.
+static std::string gOobPolicy = "wrap";
+static void probePgnRange() {
+  exec("probe pgn-range");
+  tN2kMsg m; m.SetPGN(0x01000000ul); m.Source = 1; m.DataLen = 0;
+  char *buf = (char *)malloc(64); memset(buf, 0xA5, 64);
+  gOobPolicy = N2kToSeasmart(m, 0, buf, 64) == 0 ? "refuse" : "wrap";
+  free(buf);
+  C.count("pgn_beyond_24_bits_" + gOobPolicy);
+}
 static void expOp(unsigned long pgn, unsigned src, uint32_t ts, size_t size, const std::vector<unsigned char> &d) {
   char b[96]; snprintf(b, sizeof b, "exp %lu %u %u %zu ", pgn, src, ts, size);
-  exec(std::string(b) + hex(d.data(), d.size()));
+  exec(std::string(b) + hex(d.data(), d.size()) + (pgn >= (1ul << 24) ? " " + gOobPolicy : std::string()));
 }
 // export into a buffer of `size` and, if a sentence was written, import it back (round trip)
 static void roundTrip(unsigned long pgn, unsigned src, uint32_t ts, size_t size, const std::vector<unsigned char> &d) {
@@ -284,7 +307,8 @@ int main(int argc, char **argv) {
   for (unsigned src = 0; src < 256; src++) roundTrip(randPgn(R), src, randTs(R), 64, randData(R, R.below(9)));
   for (int hi = 0; hi < 256; hi++) roundTrip(((unsigned long)hi << 16) | (unsigned long)R.below(65536), (unsigned)R.below(256), randTs(R), 30 + 16, randData(R, 8));
   for (int k = 0; k < 32; k++) { roundTrip(1ul << (k % 24), 1, 1u << k, 80, randData(R, 3)); roundTrip((1ul << (k % 24)) - 1, 255, (1u << k) - 1, 80, randData(R, 3)); }
-  // PGN beyond 24 bits (outside the property's domain; compared with the model only)
+  // PGN beyond 24 bits (outside the property's domain: sanitizers + comparison with the model only, no oracle)
+  probePgnRange();
   for (int k = 0; k < 8; k++) expOp((1ul << 24) + R.below(1ul << 30), (unsigned)R.below(256), randTs(R), 100, randData(R, 4));
   int nrt = T ? 6000 : 600;
   for (int k = 0; k < nrt; k++) { size_t n = R.chance(1, 4) ? R.below(224) : R.below(16); roundTrip(randPgn(R), (unsigned)R.below(256), randTs(R), 30 + 2 * n + (size_t)R.below(3), randData(R, n)); }
